@@ -23,3 +23,99 @@ claim("C04",
   "Exploration: 1.6e5 (quick) / 3e6 (thorough) generated (sketcher kind among 12, size, SetSketch parameters, set, two presentations with repetitions / permutation / chunking / slice vs item-wise) cases compared bit for bit over all views; stored hashes are checked against the independently recomputed hasher values; a second generator observes per-item values through the public API, finds items with equal value in one bin and presents them in both orders (this is what exposed the f32 tie defect, now fixed).",
   "SuperMinHash<f32> cases whose final sketch contains an integer-valued register are not asserted (counted); SetSketch event counters are not part of the sketch.",
   "DESIGN.md 5/C04")
+
+claim("C01",
+  "statistical property testing: generated weighted-set pairs x tens of thousands to millions of trials with fresh random item labels, exact J_P oracle, Bernstein / empirical-Bernstein decision with confirmation",
+  "Exploration to a stated resolution: 160 (quick) / 3200 (thorough) generated configurations over all four variants, all entry points and weight strata; per configuration 2e3..1.5e6 trials (work budget). Two-sided test of the mean against the exactly computed J_P with the variance bound the property itself asserts, one-sided test of the MSE bound, per-cell tests of the single-set claim w_d/sum(w), exact per-trial checks for dyadic scaling (1) and disjoint supports (0). Per-comparison false alarm 1e-14 and a second independent run before reporting. Achieved resolution is written to the evidence (0.07..1.7 points in quick).",
+  "Distributional claims cannot be closed: deviations below the recorded resolution are not detected. Hash randomness is realised as fresh random u64 labels per trial.",
+  "DESIGN.md 4, 5/C01")
+
+claim("C03",
+  "statistical property testing with exact Jaccard oracle (Bernstein mean / MSE-bound tests) + exact and distributional checks of single-item sketches (permutation-ness, per-cell uniformity, DKW on fractional parts)",
+  "Exploration to a stated resolution: 144/2400 generated (type, m, set triple) configurations over six sketch types (f64, f32, NoHash, u64, u32/XxHash32) with 1e3..4e5 trials each; mean vs J two-sided, MSE <= J(1-J)/m one-sided; single-item sketches: integer parts form a permutation in every one of 8e6+ sketches (exact), all m! / m^2 cells uniform, fractional parts uniform and pairwise uncorrelated.",
+  "f32: a value equal to j+1 is accepted for integer part j (r + j rounds up). Deviations below the recorded resolution are not detected.",
+  "DESIGN.md 4, 5/C03")
+
+claim("C05",
+  "model-based stateful property testing (histories of sketch / merge / mismatching merge against a set model, two independent composition oracles) + metamorphic min-composition for SuperMinHash",
+  "Exploration: 1e5/1.5e6 generated SetSketch histories (u16 and u32 registers, parameters incl. forced clipping and overflow, pools sized so that the lower bound becomes active) compared after every step with a fresh sketch of the model set and with the position-wise maximum of single-item sketches; parameter-mismatch merges must be refused without any change; commutativity, associativity, idempotence; get_low_sketch <= min register. SuperMinHash: sketch(S) == position-wise min over single-item sketches, 1e5/1.5e6 cases.",
+  "Parameter differences below 2^-40 relative are not generated (merge tolerates rounding-level differences by design). f32 SuperMinHash cases with an integer-valued register are not asserted.",
+  "DESIGN.md 5/C05")
+
+claim("C06",
+  "statistical property testing (bias and spread of n_hat/n against the advertised formula, normal approximation with z = 7.5 and confirmation) + stateful monotonicity histories + differential sequential vs rayon-parallel estimator under several pool sizes",
+  "Exploration: 96/1600 accuracy configurations (m 16..4096, b in (1,2], n 1..2e4 / 2e6, repetitions) with 600..4e4 trials each; 6e3/1.5e5 histories in which the estimate is checked after every single item and every merge, and the parallel estimator is compared with the sketcher's own estimate under rayon pools of 1,2,3,8,16 threads.",
+  "The expectation claim is tested from m = 16 and with a normal approximation (the statistic is unbounded); rayon reduction orders are sampled, agreement is required to 4 m eps which covers every order.",
+  "DESIGN.md 4, 5/C06")
+
+claim("C07",
+  "statistical property testing against an exact closed-form collision oracle (bucket sum of the register model incl. clipping) + pure-function property testing of the bounds over (b, p)",
+  "Exploration: 4e5/1e7 generated (b, p) pairs with b-1 down to 1e-10 for totality / ordering of the bounds; 64/1200 generated (register type, m, b, a, q, three cardinalities) configurations with 400..2e4 trials: mean fraction of equal registers vs the exact model probability within Bernstein with variance p(1-p)/m (positions are independent), and containment of the true Jaccard index by get_jaccard_bounds(p_exact) to 1e-4 for documented parameters.",
+  "Containment is asserted only when a and q follow the documentation (clipping probability < 1e-6), as the property states.",
+  "DESIGN.md 4, 5/C07")
+
+claim("C08",
+  "statistical property testing stratified on fill ratio (1/64 .. 50), three views per trial, generic-variance Bernstein + empirical Bernstein with confirmation",
+  "Exploration: 160/2400 generated (algorithm, float type, m, fill ratio, Jaccard fraction, shape) configurations, 600..4e5 trials each (sparse cases are cheap and get the most); the mean fraction of equal positions in the float, u64 and u32 views is compared with J.",
+  "After densification positions are strongly correlated, so only the trivial variance bound J(1-J) is assumed; resolution is recorded per run.",
+  "DESIGN.md 4, 5/C08")
+
+claim("C09",
+  "model-based stateful property testing (two sketchers in lock-step, raw-state snapshots around every finishing step) with a watchdog as non-termination oracle",
+  "Exploration: 6e4/1.5e6 generated histories of Sketch / Slice / End / Reinit / Views over both algorithms, f64/f32, m >= 1 and pools from m/8 to 4m; populated bins untouched, filled bins copy a populated (value, hash) pair, idempotent end_sketch, slice == item-wise + end on every state, u32 a function of u64 across positions / algorithms / sizes, equal u64 => equal float, agreement of two sketches. Finishing an empty stream must report failure; a case exceeding 20 s is reported as non-termination (this is how the original hang was found).",
+  "Raw state through the guarded accessor verif_raw. The wall-clock watchdog is used as a violation signal for this property only, because termination is the claim.",
+  "DESIGN.md 5/C09")
+
+claim("C10",
+  "statistical property testing against an exact combinatorial oracle (memoised recursion over the next lowest-ranked (element, occurrence) pair), Bernstein decision with confirmation",
+  "Exploration: 192/2400 generated (m, l, hasher, sequence pair derived by rotation / substitution / deletion / insertion / common prefix / reversal / disjoint alphabets) configurations with 1.2e4 / 4e4 trials (fresh labels per trial); mean fraction of equal positions vs the exact order-min-hash probability.",
+  "Beyond 3e6 oracle states a Monte-Carlo evaluation of the definition is used and its error added. Positions are correlated: only generic / empirical variance bounds.",
+  "DESIGN.md 4, 5/C10")
+
+claim("C11",
+  "metamorphic property testing (sequence vs permutation) with dictionary decoding through the public API and the guarded selection accessor",
+  "Exploration: 6e4/1.5e6 generated (m, l, hasher, sequence with repeats, permutation, earlier calls) cases: selected indices valid and ascending, position value == dictionary value of the selected elements, same (element, occurrence) pairs selected under permutation, l = 1 signature invariance, repeat call equality; for short inputs every position must decode to some l-subsequence using the public API only.",
+  "Selected indices come from the guarded accessor verif_selected.",
+  "DESIGN.md 5/C11")
+
+claim("C12",
+  "differential testing over execution contexts: two instances, 16 barrier-started threads, freshly started child processes",
+  "Exploration: 6e3/1.2e5 generated computation specs covering every sketcher type and entry point (incl. std HashMap whose iteration order differs per instance) are computed twice in-thread and in 16 concurrent threads; 400/6000 specs additionally in 3/6 child processes (new ASLR, RandomState, ThreadRng). All sketch views must be bit-identical.",
+  "Thread interleavings are sampled, not enumerated; the sketchers share no mutable state, the search targets hidden per-instance / per-thread / per-process inputs.",
+  "DESIGN.md 5/C12")
+
+claim("C13",
+  "model-based stateful property testing: prefix history, reinit/reset, suffix, compared step by step with a new instance",
+  "Exploration: 1.2e5/2e6 histories over 12 unweighted sketcher kinds (prefixes with merges, overflowing u16 registers, active lower bounds, finished and unfinished densification), 4e4/8e5 ProbMinHash2 reset cases, 4e4/8e5 ProbOrdMinHash2 self-clearing cases; every observable incl. counters and raw densified state is compared.",
+  "Raw densified state through verif_raw.",
+  "DESIGN.md 5/C13")
+
+claim("C14",
+  "property testing with a by-construction oracle (number of equal positions known from the generator) for all counting estimators; child-process totality testing of the MLE",
+  "Exploration: 1.5e5/3e6 generated vector pairs over six element types through every counting estimator (exact value in the estimator's own return type, symmetry, identity, length mismatch refused); 640/12800 generated SetSketch pairs (nested, disjoint, identical, 1 vs 1e5 / 1e6, b in {1.001,1.01,1.2,2}, m 1..2048) through get_mle in child processes: finite value in [0,1], no abort.",
+  "Float elements are finite. The MLE runs in child processes because argmin's terminal logger writes to stdout.",
+  "DESIGN.md 5/C14")
+
+claim("C16",
+  "statistical property testing: DKW goodness of fit against the closed-form CDF, plus a stratified test of the rejection branch by forcing the first generator word",
+  "Exploration: 64/640 generated rates (log-uniform 1e-9..40, ln(m/(m-1)), ln 2 ...) with 4e6/2e7 samples each: range check exact, Kolmogorov distance within the DKW bound; the rejection branch (probability down to 5e-10) is entered deliberately and its conditional law compared with the residual law.",
+  "The branch sub-check assumes 'first word decides', verified on the build under test, skipped and reported otherwise.",
+  "DESIGN.md 4, 5/C16")
+
+claim("C17",
+  "property testing with a scripted generator (exact permutation-ness and history independence) + statistical per-cell uniformity test",
+  "Exploration: 1.5e5/3e6 generated (m, scripted words incl. the extremes of the unit interval, pre-reset history, blocks) cases compared draw by draw between a new, a reset-new and a used+reset instance; 48/480 uniformity cases with 6e6/4e7 draws: all m! orders (m <= 5) and all m^2 cells.",
+  "No bit-exact reference shuffle: any correct Fisher-Yates passes.",
+  "DESIGN.md 5/C17")
+
+claim("C18",
+  "differential testing against native-endian reference bytes, run in child processes built normally and with AddressSanitizer (abnormal termination = memory-safety oracle); Miri in the thorough tier",
+  "Exploration: 4e3/6e4 generated values over all ten implementing types with lengths 0 .. 1e5 incl. allocator size-class boundaries; get_sig twice with allocator churn, ProbMinHash3aSha over keys of the type in two insertion orders; every batch under glibc and under ASan; 150 values under Miri (thorough).",
+  "ASan does not see layout-mismatched deallocation (Miri does, thorough tier only).",
+  "DESIGN.md 5/C18")
+
+claim("C20",
+  "round-trip property testing + exhaustive crash-point enumeration (every strict prefix of every generated file)",
+  "4e4/8e5 generated parameter tuples (b in (1,2], a in [1e-6,1e9], m and q over all of u64): dump, reload, compare with the stated tolerance; overwrite; then every prefix of the file as crash point must give Err, never Ok, never a panic; missing file gives Err. The prefix enumeration per file is exhaustive.",
+  "b and a are generated inside their documented ranges; for magnitudes such as 1e-143 serde_json's default parser is 1 ulp off even for 15-digit decimals (see DESIGN.md).",
+  "DESIGN.md 5/C20")
